@@ -185,6 +185,8 @@ _PF_TEMPLATES = {
     'globnone': 'def w(a, *args, **kwargs):\n    return callee(*args, **kwargs)\n',
     'globkw': 'def w(a, *args, **kwargs):\n    return callee(*args, **kwargs)\n',
     'globpos': 'def w(a, *args, **kwargs):\n    return callee(*args, **kwargs)\n',
+    # a partial object of a partial object that is NOT flattened (the inner one carries an attribute) and binds a keyword of the wrapper
+    'nestedkw': 'def w(cb, a=7, *args, **kwargs):\n    return cb(*args, **kwargs)\n',
     # the wrapper is decorated with a modifier (discovery goes through its autoforwards hint): the bound positional still
     # resolves the callee, exactly as for the natively written twin wn
     'hintkwo': 'from sigtools import modifiers\n@modifiers.kwoargs("opt")\ndef w(cb, opt=None, *args, **kwargs):\n    return cb(*args, **kwargs)\n'
@@ -209,6 +211,9 @@ def rt_partialfwd(req):
         src += ['p = functools.partial(w, callee%s)' % ''.join(', %d' % (700 + i) for i in range(extra))]
         if tmpl != 'posparam':
             src += ['pn = functools.partial(wn, callee%s)' % ''.join(', %d' % (700 + i) for i in range(extra))]
+    elif tmpl == 'nestedkw':
+        src += ['inner = functools.partial(w, callee, a=0)', 'inner.tag = "tagged"',
+                'p = functools.partial(inner%s)' % ''.join(', %d' % (700 + i) for i in range(extra))]
     elif tmpl == 'kwdefault':
         src += ['p = functools.partial(w, 1%s)' % ''.join(', %d' % (700 + i) for i in range(extra))]
     elif tmpl == 'nestedpartial':
@@ -232,6 +237,11 @@ def rt_partialfwd(req):
             try:
                 sig = sigtools.signature(mod.p)
             except Exception as e:  # noqa
+                try:
+                    inspect.signature(mod.p)
+                except ValueError:
+                    if isinstance(e, ValueError):
+                        return ('ok', (), 'both-raise')         # the bound arguments do not fit: inspect says so too (C07)
                 return ('ok', ('partialfwd-raises: sigtools.signature(partial) raised %s: %s\n%s' % (type(e).__name__, e, text),), 'raised')
             plain = signatures.signature(mod.p)
         if tmpl.startswith('glob'):
@@ -271,7 +281,19 @@ def rt_partialfwd(req):
             if str(sig) != str(twin):
                 problems.append('partialfwd-hint-differs: functools.partial over a modifiers-decorated forwarding wrapper is reported as %s, '
                                 'over its natively written twin as %s\n%s' % (sig, twin, text))
-        if tmpl not in ('posparam', 'nestedpartial', 'hintkwo', 'hintposo') and str(sig) != str(plain):
+        if tmpl == 'nestedkw':
+            # what the outer partial accepts is what the inner one accepts minus the outer bound positionals
+            with warnings.catch_warnings():
+                warnings.simplefilter('ignore')
+                isig = sigtools.signature(mod.inner)
+            try:
+                want = str(signatures.mask(isig, extra))
+            except ValueError:
+                want = None
+            if want is not None and [q.name for q in sig.parameters.values()] != [q.name for q in signatures.mask(isig, extra).parameters.values()]:
+                problems.append('partialfwd-nested-keyword: partial(inner%s) with inner = partial(w, callee, a=0) is reported as %s; inner alone is %s' % (
+                    ', ...' if extra else '', sig, isig))
+        if tmpl not in ('posparam', 'nestedpartial', 'hintkwo', 'hintposo', 'nestedkw') and str(sig) != str(plain):
             problems.append('partialfwd-resolved-unbound: the callee is not bound positionally, yet sigtools.signature(p) = %s differs from '
                             'signatures.signature(p) = %s\n%s' % (sig, plain, text))
         d = sig.sources['+depths'].get(mod.p)
